@@ -300,4 +300,18 @@ theorem total_isSome (t : List (Array α)) (n : Nat) (hn : 0 < n) (h : ShapeSize
         have := ih ((n + 1) / 2) (by omega) hab
         simpa [total?, List.getLast?_cons_cons] using this
 
+theorem above_cons (n k : Nat) (ks : List Nat) :
+    Above n (k :: ks) ↔ n ≠ 1 ∧ k = (n + 1) / 2 ∧ 0 < (n + 1) / 2 ∧ Above ((n + 1) / 2) ks := by
+  unfold Above
+  by_cases h : n = 1
+  · simp [h]
+  · simp only [h, if_false, shapeSizes_cons, ne_eq, not_false_eq_true, true_and]
+    rfl
+
+theorem above_nil (n : Nat) (hn : 0 < n) : Above n [] ↔ n = 1 := by
+  unfold Above
+  by_cases h : n = 1
+  · simp [h]
+  · simp [h, ShapeSizes]; omega
+
 end OmplModel.Pdf
